@@ -6,6 +6,7 @@ import Mathlib.Data.ZMod.Basic
 import Mathlib.FieldTheory.Finite.Basic
 import Mathlib.GroupTheory.OrderOfElement
 import Mathlib.Algebra.Field.ZMod
+import Mathlib.RingTheory.RootsOfUnity.PrimitiveRoots
 /-
   Foundation for the protocol algebra (C01, C03, C04, C05, C08): a well-formed Schnorr group,
   the cast into the field `ZMod p`, and the value of every exponentiation routine of the model
@@ -34,6 +35,9 @@ def toF (G : Group) (a : Int) : F G := (a : ZMod G.p.natAbs)
 
 variable {G : Group}
 
+-- the statements below keep the `Fact` instance argument even where the proof does not need it
+set_option linter.unusedSectionVars false
+
 theorem fact_prime (hG : ValidGroup G) : Fact (Nat.Prime G.p.natAbs) := ⟨hG.p_prime⟩
 
 -- from here on the primality of `p` is available as an instance (so that `F G` is a field);
@@ -41,10 +45,35 @@ theorem fact_prime (hG : ValidGroup G) : Fact (Nat.Prime G.p.natAbs) := ⟨hG.p_
 variable [Fact (Nat.Prime G.p.natAbs)]
 
 theorem one_lt_p (hG : ValidGroup G) : 1 < G.p := by
-  sorry
+  have := hG.g_gt; have := hG.g_lt; omega
+
+omit [Fact (Nat.Prime G.p.natAbs)] in
+/-- `p` is positive, so its absolute value casts back to `p` -/
+theorem natAbs_p (hG : ValidGroup G) : ((G.p.natAbs : Nat) : Int) = G.p :=
+  Int.natAbs_of_nonneg hG.p_pos.le
+
+omit [Fact (Nat.Prime G.p.natAbs)] in
+theorem natAbs_q (hG : ValidGroup G) : ((G.q.natAbs : Nat) : Int) = G.q :=
+  Int.natAbs_of_nonneg hG.q_pos.le
+
+omit [Fact (Nat.Prime G.p.natAbs)] in
+/-- equality in the field is congruence modulo `p` -/
+theorem toF_eq_iff (hG : ValidGroup G) (a b : Int) : toF G a = toF G b ↔ a % G.p = b % G.p := by
+  unfold toF
+  rw [ZMod.intCast_eq_intCast_iff, natAbs_p hG]
+  rfl
+
+omit [Fact (Nat.Prime G.p.natAbs)] in
+theorem toF_congr (hG : ValidGroup G) {a b : Int} (h : a ≡ b [ZMOD G.p]) : toF G a = toF G b :=
+  (toF_eq_iff hG a b).mpr h
+
+omit [Fact (Nat.Prime G.p.natAbs)] in
+theorem emod_bounds (hG : ValidGroup G) (a : Int) : 0 ≤ a % G.p ∧ a % G.p < G.p :=
+  ⟨Int.emod_nonneg _ (ne_of_gt hG.p_pos), Int.emod_lt_of_pos _ hG.p_pos⟩
 
 theorem toF_emod (hG : ValidGroup G) (a : Int) : toF G (a % G.p) = toF G a := by
-  sorry
+  rw [toF_eq_iff hG]
+  exact Int.emod_emod_of_dvd _ (dvd_refl _)
 
 theorem toF_mul (a b : Int) : toF G (a * b) = toF G a * toF G b := by
   unfold toF; push_cast; rfl
@@ -57,87 +86,249 @@ theorem toF_one : toF G 1 = 1 := by unfold toF; push_cast; rfl
 /-- reduced representatives are determined by their field value -/
 theorem eq_of_toF_eq (hG : ValidGroup G) {a b : Int} (ha : 0 ≤ a ∧ a < G.p) (hb : 0 ≤ b ∧ b < G.p)
     (h : toF G a = toF G b) : a = b := by
-  sorry
+  have h' := (toF_eq_iff hG a b).mp h
+  rwa [Int.emod_eq_of_lt ha.1 ha.2, Int.emod_eq_of_lt hb.1 hb.2] at h'
 
 theorem toF_eq_zero_iff (hG : ValidGroup G) (a : Int) : toF G a = 0 ↔ a % G.p = 0 := by
-  sorry
+  have h0 : (0 : F G) = toF G 0 := by unfold toF; simp
+  rw [h0, toF_eq_iff hG, Int.zero_emod]
 
 /-- the generator is a unit of order exactly `q` -/
 theorem g_ne_zero (hG : ValidGroup G) : toF G G.g ≠ 0 := by
-  sorry
+  rw [Ne, toF_eq_zero_iff hG, Int.emod_eq_of_lt (by have := hG.g_gt; omega) hG.g_lt]
+  have := hG.g_gt; omega
 
 theorem g_pow_q (hG : ValidGroup G) : toF G G.g ^ G.q.natAbs = 1 := by
-  sorry
+  rw [← toF_pow, ← toF_emod hG, hG.g_order, toF_one]
 
 theorem g_orderOf (hG : ValidGroup G) : orderOf (toF G G.g) = G.q.natAbs := by
-  sorry
+  have : Fact (Nat.Prime G.q.natAbs) := ⟨hG.q_prime⟩
+  refine orderOf_eq_prime (g_pow_q hG) ?_
+  intro h1
+  rw [← toF_one (G := G)] at h1
+  have := eq_of_toF_eq hG ⟨by have := hG.g_gt; omega, hG.g_lt⟩ ⟨by norm_num, one_lt_p hG⟩ h1
+  have := hG.g_gt
+  omega
 
 /-- `t ↦ g^t` is injective below `q` -/
 theorem g_pow_inj (hG : ValidGroup G) {t t' : Nat} (ht : t < G.q.natAbs) (ht' : t' < G.q.natAbs)
     (h : toF G G.g ^ t = toF G G.g ^ t') : t = t' := by
-  sorry
+  rw [← g_orderOf hG] at ht ht'
+  exact pow_injOn_Iio_orderOf ht ht' h
 
 /-- exponents only matter modulo `q` for elements of the subgroup -/
 theorem zpow_mod_q (hG : ValidGroup G) (a : F G) (ha : a ^ G.q.natAbs = 1) (ha0 : a ≠ 0) (e : Int) :
     a ^ (e % G.q) = a ^ e := by
-  sorry
+  have h1 : a ^ G.q = 1 := by
+    have : a ^ ((G.q.natAbs : Nat) : Int) = 1 := by rw [zpow_natCast]; exact ha
+    rwa [natAbs_q hG] at this
+  conv_rhs => rw [← Int.mul_ediv_add_emod e G.q]
+  rw [zpow_add₀ ha0, zpow_mul, h1, one_zpow, one_mul]
 
 /-! ### the arithmetic routines as field operations -/
+
+/-- a model integer that is non-zero in the field is coprime to `p` -/
+theorem gcd_eq_one_of_unit (hG : ValidGroup G) (a : Int) (ha : toF G a ≠ 0) :
+    Int.gcd a G.p = 1 := by
+  rw [Int.gcd_comm, Int.gcd_def]
+  refine (Nat.Prime.coprime_iff_not_dvd hG.p_prime).mpr ?_
+  intro hd
+  apply ha
+  rw [toF_eq_zero_iff hG]
+  exact Int.emod_eq_zero_of_dvd (Int.natAbs_dvd_natAbs.mp hd)
+
+omit [Fact (Nat.Prime G.p.natAbs)] in
+theorem p_odd (hG : ValidGroup G) : G.p % 2 = 1 := by
+  have h3 : 2 < G.p := by have := hG.g_gt; have := hG.g_lt; omega
+  rcases hG.p_prime.eq_two_or_odd with h | h
+  · omega
+  · omega
+
+/-- powers with exponent `|e|` as integer powers -/
+theorem pow_natAbs_of_nonneg (x : F G) {e : Int} (he : 0 ≤ e) : x ^ e.natAbs = x ^ e := by
+  conv_rhs => rw [← Int.natAbs_of_nonneg he]
+  rw [zpow_natCast]
+
+theorem inv_pow_natAbs_of_neg (x : F G) {e : Int} (he : e < 0) : (x ^ e.natAbs)⁻¹ = x ^ e := by
+  have : e = -((e.natAbs : Nat) : Int) := by omega
+  conv_rhs => rw [this]
+  rw [zpow_neg, zpow_natCast]
 
 /-- `invm` on a unit: the field inverse, reduced -/
 theorem invm_val (hG : ValidGroup G) (a : Int) (ha : toF G a ≠ 0) :
     ∃ r, invm a G.p = some r ∧ 0 ≤ r ∧ r < G.p ∧ toF G r = (toF G a)⁻¹ := by
-  sorry
+  obtain ⟨r, hr⟩ := invm_isSome_of_coprime (ne_of_gt hG.p_pos) (gcd_eq_one_of_unit hG a ha)
+  obtain ⟨h0, h1, hc⟩ := invm_some hr
+  rw [abs_of_pos hG.p_pos] at h1
+  refine ⟨r, hr, h0, h1, ?_⟩
+  have := toF_congr hG hc
+  rw [toF_mul, toF_one] at this
+  exact eq_inv_of_mul_eq_one_right this
 
 theorem invm_none_iff (hG : ValidGroup G) (a : Int) : invm a G.p = none ↔ toF G a = 0 := by
-  sorry
+  constructor
+  · intro h
+    by_contra h0
+    obtain ⟨r, hr, -⟩ := invm_val hG a h0
+    rw [h] at hr
+    cases hr
+  · intro h
+    cases hinv : invm a G.p with
+    | none => rfl
+    | some r =>
+      exfalso
+      have := toF_congr hG (invm_some hinv).2.2
+      rw [toF_mul, toF_one, h, zero_mul] at this
+      exact zero_ne_one this
+
+theorem mpzPowm_nonneg_aux (hG : ValidGroup G) (b e : Int) (he : 0 ≤ e) :
+    ∃ r, mpzPowm b e G.p = .ok r ∧ 0 ≤ r ∧ r < G.p ∧ toF G r = toF G b ^ e.toNat := by
+  refine ⟨b ^ e.toNat % G.p, ?_, (emod_bounds hG _).1, (emod_bounds hG _).2, ?_⟩
+  · unfold mpzPowm
+    simp only [ne_of_gt hG.p_pos, if_false, he, if_true, baz_eq b G.p hG.p_pos]
+  · rw [toF_emod hG, toF_pow]
 
 /-- `mpz_powm` on a unit base with any integer exponent -/
 theorem mpzPowm_val (hG : ValidGroup G) (b e : Int) (hb : toF G b ≠ 0) :
     ∃ r, mpzPowm b e G.p = .ok r ∧ 0 ≤ r ∧ r < G.p ∧ toF G r = toF G b ^ e := by
-  sorry
+  by_cases he : 0 ≤ e
+  · obtain ⟨r, hr, h0, h1, hv⟩ := mpzPowm_nonneg_aux hG b e he
+    refine ⟨r, hr, h0, h1, ?_⟩
+    rw [hv, ← zpow_natCast, Int.toNat_of_nonneg he]
+  · obtain ⟨bi, hbi, hb0, hb1, hbv⟩ := invm_val hG b hb
+    have hval : ((powm bi.toNat (-e).toNat G.p.natAbs : Nat) : Int) = bi ^ (-e).toNat % G.p := by
+      have := baz_eq bi G.p hG.p_pos (-e).toNat
+      rwa [natAbs_p hG, Int.emod_eq_of_lt hb0 hb1] at this
+    refine ⟨bi ^ (-e).toNat % G.p, ?_, (emod_bounds hG _).1, (emod_bounds hG _).2, ?_⟩
+    · unfold mpzPowm
+      simp only [ne_of_gt hG.p_pos, if_false, he, hbi, hval]
+    · rw [toF_emod hG, toF_pow, hbv, inv_pow]
+      have : e = -(((-e).toNat : Nat) : Int) := by omega
+      conv_rhs => rw [this]
+      rw [zpow_neg, zpow_natCast]
 
 /-- `mpz_powm` with a non-negative exponent never fails, unit or not -/
 theorem mpzPowm_nonneg (hG : ValidGroup G) (b e : Int) (he : 0 ≤ e) :
-    ∃ r, mpzPowm b e G.p = .ok r ∧ 0 ≤ r ∧ r < G.p ∧ toF G r = toF G b ^ e.toNat := by
-  sorry
+    ∃ r, mpzPowm b e G.p = .ok r ∧ 0 ≤ r ∧ r < G.p ∧ toF G r = toF G b ^ e.toNat :=
+  mpzPowm_nonneg_aux hG b e he
 
 /-- `tmcg_mpz_spowm` on a unit base -/
 theorem spowm_val (hG : ValidGroup G) (b e : Int) (hb : toF G b ≠ 0) :
     ∃ r, spowm b e G.p = .ok r ∧ 0 ≤ r ∧ r < G.p ∧ toF G r = toF G b ^ e := by
-  sorry
+  obtain ⟨r, hr, h0, h1, hv⟩ :=
+    spowm_spec b e G.p (one_lt_p hG) (p_odd hG) (gcd_eq_one_of_unit hG b hb)
+  refine ⟨r, hr, h0, h1, ?_⟩
+  by_cases he : 0 ≤ e
+  · rw [if_pos he] at hv
+    rw [hv, toF_emod hG, toF_pow, pow_natAbs_of_nonneg _ he]
+  · rw [if_neg he] at hv
+    have h2 : toF G (r * b ^ e.natAbs) = toF G 1 := by
+      rw [toF_eq_iff hG, hv, Int.emod_eq_of_lt (by norm_num) (one_lt_p hG)]
+    rw [toF_mul, toF_pow, toF_one] at h2
+    rw [← inv_pow_natAbs_of_neg _ (not_le.mp he)]
+    exact eq_inv_of_mul_eq_one_left h2
 
 /-- a table for base `b` built with the group's table length -/
 def IsTable (G : Group) (T : Table) (b : Int) : Prop := precompute b G.p (tableLen G) = .ok T
 
-theorem table_exists (hG : ValidGroup G) (b : Int) : ∃ T, IsTable G T b := by
-  sorry
+theorem table_exists (hG : ValidGroup G) (b : Int) : ∃ T, IsTable G T b :=
+  precompute_ok b G.p (tableLen G) (ne_of_gt hG.p_pos)
+
+omit [Fact (Nat.Prime G.p.natAbs)] in
+/-- exponents below `q` fit the table built with the group's table length -/
+theorem bitlen_le_tableSize (hG : ValidGroup G) (e : Int) (he : e.natAbs < G.q.natAbs) :
+    bitlen e ≤ tableSize (tableLen G) := by
+  have hq := hG.q_fits
+  have hq0 : G.q.natAbs ≠ 0 := by omega
+  have hle : bitlen e ≤ bitlen G.q := by
+    unfold bitlen
+    simp only [hq0, if_false]
+    by_cases h0 : e.natAbs = 0
+    · simp [h0]
+    · simp only [h0, if_false]
+      have h1 := Nat.log2_self_le h0
+      have : e.natAbs.log2 ≤ G.q.natAbs.log2 := (Nat.le_log2 hq0).mpr (by omega)
+      omega
+  have hpos : 1 ≤ bitlen G.q := by
+    unfold bitlen; simp only [hq0, if_false]; omega
+  unfold tableSize tableLen
+  omega
 
 /-- `tmcg_mpz_fpowm` / `fspowm` on their table base (a unit), exponent `|e| < q` -/
 theorem fpowm_val (hG : ValidGroup G) (T : Table) (b e : Int) (hT : IsTable G T b)
     (hb : toF G b ≠ 0) (he : e.natAbs < G.q.natAbs) :
     ∃ r, fpowm T b e G.p = .ok r ∧ 0 ≤ r ∧ r < G.p ∧ toF G r = toF G b ^ e := by
-  sorry
+  rw [fpowm_spec b G.p (tableLen G) (one_lt_p hG) T hT e (bitlen_le_tableSize hG e he)]
+  by_cases h0 : 0 ≤ e
+  · rw [if_pos h0]
+    refine ⟨_, rfl, (emod_bounds hG _).1, (emod_bounds hG _).2, ?_⟩
+    rw [toF_emod hG, toF_pow, pow_natAbs_of_nonneg _ h0]
+  · rw [if_neg h0]
+    have hne : toF G (b ^ e.natAbs % G.p) ≠ 0 := by
+      rw [toF_emod hG, toF_pow]; exact pow_ne_zero _ hb
+    obtain ⟨r, hr, hr0, hr1, hv⟩ := invm_val hG _ hne
+    refine ⟨r, by rw [hr], hr0, hr1, ?_⟩
+    rw [hv, toF_emod hG, toF_pow, inv_pow_natAbs_of_neg _ (not_le.mp h0)]
 
 theorem fspowm_val (hG : ValidGroup G) (T : Table) (b e : Int) (hT : IsTable G T b)
     (hb : toF G b ≠ 0) (he : e.natAbs < G.q.natAbs) :
     ∃ r, fspowm T b e G.p = .ok r ∧ 0 ≤ r ∧ r < G.p ∧ toF G r = toF G b ^ e := by
-  sorry
+  rw [fspowm_spec b G.p (tableLen G) (one_lt_p hG) T hT e (bitlen_le_tableSize hG e he)]
+  have hne : toF G (b ^ e.natAbs % G.p) ≠ 0 := by
+    rw [toF_emod hG, toF_pow]; exact pow_ne_zero _ hb
+  obtain ⟨r, hr, hr0, hr1, hv⟩ := invm_val hG _ hne
+  simp only [hr]
+  by_cases h0 : 0 ≤ e
+  · simp only [h0, if_true]
+    refine ⟨_, rfl, (emod_bounds hG _).1, (emod_bounds hG _).2, ?_⟩
+    rw [toF_emod hG, toF_pow, pow_natAbs_of_nonneg _ h0]
+  · simp only [h0, if_false]
+    refine ⟨r, rfl, hr0, hr1, ?_⟩
+    rw [hv, toF_emod hG, toF_pow, inv_pow_natAbs_of_neg _ (not_le.mp h0)]
 
 theorem fpowmUi_val (hG : ValidGroup G) (T : Table) (b : Int) (e : Nat) (hT : IsTable G T b)
     (he : e < G.q.natAbs) :
     ∃ r, fpowmUi T b e G.p = .ok r ∧ 0 ≤ r ∧ r < G.p ∧ toF G r = toF G b ^ e := by
-  sorry
+  rw [fpowmUi_spec b G.p (tableLen G) (one_lt_p hG) T hT e
+    (bitlen_le_tableSize hG e (by simpa using he))]
+  refine ⟨_, rfl, (emod_bounds hG _).1, (emod_bounds hG _).2, ?_⟩
+  rw [toF_emod hG, toF_pow]
 
 /-- `CheckElement` (Schnorr-group flavour) decides membership in the order-`q` subgroup -/
 theorem checkElement_iff (hG : ValidGroup G) (a : Int) :
     Sigma.checkElement .schnorr G a = true ↔
       (0 < a ∧ a < G.p ∧ toF G a ^ G.q.natAbs = 1) := by
-  sorry
+  unfold Sigma.checkElement
+  by_cases hr : a ≤ 0 ∨ G.p ≤ a
+  · rw [if_pos hr]
+    constructor
+    · intro h; cases h
+    · rintro ⟨h1, h2, -⟩; omega
+  · rw [if_neg hr]
+    have ha0 : 0 < a := by omega
+    have ha1 : a < G.p := by omega
+    have hq : G.q.toNat = G.q.natAbs := by have := hG.q_pos; omega
+    have hp : G.p.toNat = G.p.natAbs := by have := hG.p_pos; omega
+    have hval : ((powm a.toNat G.q.toNat G.p.toNat : Nat) : Int) = a ^ G.q.natAbs % G.p := by
+      have := baz_eq a G.p hG.p_pos G.q.natAbs
+      rw [natAbs_p hG, Int.emod_eq_of_lt ha0.le ha1] at this
+      rw [hq, hp]; exact this
+    have hfield : toF G a ^ G.q.natAbs = 1 ↔ a ^ G.q.natAbs % G.p = 1 := by
+      rw [← toF_pow, ← toF_one (G := G), toF_eq_iff hG,
+        Int.emod_eq_of_lt (by norm_num : (0:Int) ≤ 1) (one_lt_p hG)]
+    simp only [beq_iff_eq, hfield, ← hval]
+    constructor
+    · intro h; exact ⟨ha0, ha1, by rw [h]; rfl⟩
+    · rintro ⟨-, -, h⟩; exact_mod_cast h
 
 /-- members of the order-`q` subgroup are powers of `g` -/
 theorem exists_log (hG : ValidGroup G) (a : F G) (ha : a ^ G.q.natAbs = 1) :
     ∃ e : Nat, e < G.q.natAbs ∧ a = toF G G.g ^ e := by
-  sorry
+  have : NeZero G.q.natAbs := ⟨hG.q_prime.ne_zero⟩
+  have hprim : IsPrimitiveRoot (toF G G.g) G.q.natAbs := by
+    have := IsPrimitiveRoot.orderOf (toF G G.g)
+    rwa [g_orderOf hG] at this
+  obtain ⟨i, hi, hia⟩ := hprim.eq_pow_of_pow_eq_one ha
+  exact ⟨i, hi, hia.symm⟩
 
 end Tmcg.Grp
